@@ -440,7 +440,13 @@ func (la *LockAnalysis) HeldAt(ins ssa.Instruction) map[string]lockMode {
 
 // Pairing (K8a): every lock acquired in a function is released on all exits
 // (directly or by a deferred release); wrapper methods are exempt.
-func (la *LockAnalysis) Pairing(exempt map[string]string) {
+// PairExempt exempts, in one function, the exits that sit under a decision.
+type PairExempt struct {
+	Under Cond
+	Why   string
+}
+
+func (la *LockAnalysis) Pairing(exempt map[string]PairExempt) {
 	c := la.c
 	n := 0
 	for _, fn := range la.fns {
@@ -465,7 +471,7 @@ func (la *LockAnalysis) Pairing(exempt map[string]string) {
 		}
 		name := load.QualName(fn)
 		entry := la.entry[fn]
-		var leaks []string
+		var leaks, exempted []string
 		for _, ret := range Returns(fn) {
 			st, ok := la.in[ret.Block()]
 			if !ok {
@@ -482,6 +488,10 @@ func (la *LockAnalysis) Pairing(exempt map[string]string) {
 				if _, atEntry := entry.held[f]; atEntry {
 					continue
 				}
+				if ex, ok := exempt[name]; ok && HasGuard(ret.Block(), ex.Under) {
+					exempted = append(exempted, f+" at "+c.At(ret))
+					continue
+				}
 				leaks = append(leaks, f+" still held at "+c.At(ret))
 			}
 		}
@@ -489,9 +499,11 @@ func (la *LockAnalysis) Pairing(exempt map[string]string) {
 		c.Sites++
 		sort.Strings(leaks)
 		if len(leaks) == 0 {
-			c.OK("K8a", name, "every lock acquired is released on all exits", c.P.Pos(fn.Pos()), "")
-		} else if why, ok := exempt[name]; ok {
-			c.OK("K8a", name, "every lock acquired is released on all exits", c.P.Pos(fn.Pos()), "exempt: "+why+" ["+strings.Join(uniq(leaks), "; ")+"]")
+			detail := ""
+			if len(exempted) > 0 {
+				detail = "exempt exit(s): " + strings.Join(uniq(exempted), "; ") + " - " + exempt[name].Why
+			}
+			c.OK("K8a", name, "every lock acquired is released on all exits", c.P.Pos(fn.Pos()), detail)
 		} else {
 			c.Fail("K8a", name, "every lock acquired is released on all exits", c.P.Pos(fn.Pos()), strings.Join(uniq(leaks), "; "))
 		}
